@@ -201,7 +201,7 @@ def _floatval(x):
             return ('i', zi)
         return ('r', fl_of(z3.ToReal(zi)))
     if isinstance(x, float):
-        if x == int(x) and abs(x) <= TWO53 if (x == x and abs(x) != float('inf')) else False:
+        if x == x and abs(x) != float('inf') and x == int(x) and abs(x) <= TWO53:
             return ('i', z3.IntVal(int(x)))
         return ('r', to_fractionlike(x))
     return None
@@ -218,8 +218,24 @@ def _mkfloat_exact_int(zi):
     return SymFloat(r=fl_of(z3.ToReal(zi)))
 
 
+def int_truediv(x, y):
+    """Python int / int: the correctly rounded quotient of the exact integers (no prior conversion)."""
+    if SymBool(y == 0):
+        raise ZeroDivisionError('division by zero')
+    q = fdiv(x, y)
+    if SymBool(x - y * q == 0):
+        if SymBool(z3.And(q <= TWO53, q >= -TWO53)):
+            return SymFloat(iz=z3.simplify(q))
+        return SymFloat(r=fl_of(z3.ToReal(q)))
+    return SymFloat(r=fl_of(z3.ToReal(x) / z3.ToReal(y)))
+
+
 def float_binop(op, a, b):
     """IEEE double op on two float-convertible operands.  Returns SymFloat."""
+    if op == '/' and not is_floatlike(a) and not is_floatlike(b):
+        za, zb = zint(a), zint(b)
+        if za is not None and zb is not None:
+            return int_truediv(za, zb)
     ka, kb = _floatval(a), _floatval(b)
     if ka is None or kb is None:
         return NotImplemented
